@@ -285,6 +285,23 @@ pub fn check_real_point(p: &Pt, cx: &mut Cx, w: &mut World) {
             cx.check("roundtrip.no_gain", end0 <= bal0, || format!("executed there-and-back: put in {}, proceeds {}, got back {}", p.offer, got1, end0 + p.offer - bal0));
         }
     }
+    // the same quote in the state after those swaps, where protocol fees of both assets are pending: the
+    // Simulation must be the formula on the reserves the pool reports (balances minus what it owes)
+    if let Ok((res, _)) = pair_pool(w, &h.pair.addr) {
+        for dir in 0..2usize {
+            let q = Pt { offer_pool: res[dir], ask_pool: res[1 - dir], offer: p.offer, fee: p.fee, dec: p.dec };
+            let offer_info = if dir == 0 { &a0 } else { &a1 };
+            let sim: Result<SimulationResponse, String> = w.query(&h.pair.addr, &PairQuery::Simulation { offer_asset: asset(offer_info, p.offer) });
+            if let (Ok(s), Ok(Ok(c))) = (&sim, &eval_real(&q)) {
+                cx.count("real:sim_after_swaps_ok");
+                cx.check(
+                    "query_path.simulation_equals_compute_swap",
+                    s.return_amount == c.return_amount && s.spread_amount == c.spread_amount && s.swap_fee_amount == c.swap_fee_amount && s.protocol_fee_amount == c.protocol_fee_amount && s.burn_fee_amount == c.burn_fee_amount,
+                    || format!("after swaps (pending protocol fees), reported reserves {:?}, offer {} of asset {}: Simulation {:?} != compute_swap {:?}", res, p.offer, dir, s, c),
+                );
+            }
+        }
+    }
 }
 
 pub fn run(tier: &str, seed: u64) -> i32 {
@@ -318,7 +335,7 @@ pub fn run(tier: &str, seed: u64) -> i32 {
         &[0, m / 2, m - 1],
     );
     ev.validated = ev.counters.get("real:sim_ok").cloned().unwrap_or(0);
-    for c in ["outcome:ok", "nontrivial:protocol_fee>0", "roundtrip:evaluated", "real:sim_ok", "real:roundtrip_executed"] {
+    for c in ["outcome:ok", "nontrivial:protocol_fee>0", "roundtrip:evaluated", "real:sim_ok", "real:roundtrip_executed", "real:sim_after_swaps_ok"] {
         ev.require_counter(c, 100);
     }
     ev.finish()
